@@ -141,7 +141,7 @@ func c20LinModel(kind sim.Kind) porcupine.Model {
 						old = sim.Canon(*val)
 					}
 					switch c.M {
-					case "Get":
+					case "Get", "GetFromObject":
 						want = old
 					case "Size":
 						n := 0
@@ -152,10 +152,15 @@ func c20LinModel(kind sim.Kind) porcupine.Model {
 							n++
 						}
 						want = sim.Canon(float64(n))
-					case "Put":
+					case "Put", "PutToObject":
 						want = old
+						if c.M == "PutToObject" && !*has {
+							// a Document's PutToObject on a member that was deleted before hands back the deleted value
+							// (tolerated by the sequential model of C03 as well): not judged
+							judged = false
+						}
 						*val, *has = c.Vals[0].S, true
-					case "Remove":
+					case "Remove", "DeleteInObject":
 						if !*has {
 							judged = false // removing an absent key may be refused or accepted; it changes nothing
 						}
@@ -212,6 +217,16 @@ func c20LinGenCall(rt *rapid.T, kind sim.Kind, label string, tagN *int, g int) s
 		return sim.Call{M: "Insert", Pos: pos, Vals: []sim.Val{sim.S(fmt.Sprintf("g%d.%d", g, *tagN))}}
 	}
 	k := rapid.SampledFrom([]string{"a", "b"}).Draw(rt, label+".k")
+	if kind == sim.Document {
+		switch rapid.IntRange(0, 4).Draw(rt, label+".m") {
+		case 0:
+			return sim.Call{M: "GetFromObject", Key: k}
+		case 1:
+			return sim.Call{M: "DeleteInObject", Key: k}
+		}
+		*tagN++
+		return sim.Call{M: "PutToObject", Key: k, Vals: []sim.Val{sim.S(fmt.Sprintf("g%d.%d", g, *tagN))}}
+	}
 	switch rapid.IntRange(0, 5).Draw(rt, label+".m") {
 	case 0:
 		return sim.Call{M: "Get", Key: k}
@@ -298,6 +313,8 @@ func testC20Linearizable(t *testing.T, kind sim.Kind) {
 							_ = dt.(orda.Counter).Transaction("t", func(v orda.CounterInTx) error { return body(v) })
 						case sim.List:
 							_ = dt.(orda.List).Transaction("t", func(v orda.ListInTx) error { return body(v) })
+						case sim.Document:
+							_ = dt.(orda.Document).Transaction("t", func(v orda.DocumentInTx) error { return body(v) })
 						default:
 							_ = dt.(orda.Map).Transaction("t", func(v orda.MapInTx) error { return body(v) })
 						}
@@ -357,3 +374,6 @@ func testC20Linearizable(t *testing.T, kind sim.Kind) {
 func TestC20LinearizableCounter(t *testing.T) { testC20Linearizable(t, sim.Counter) }
 func TestC20LinearizableMap(t *testing.T)     { testC20Linearizable(t, sim.Map) }
 func TestC20LinearizableList(t *testing.T)    { testC20Linearizable(t, sim.List) }
+func TestC20LinearizableDocument(t *testing.T) {
+	testC20Linearizable(t, sim.Document)
+}
